@@ -23,7 +23,8 @@ EXPLANATION = (
     " ROUNDS 5-6: R6-LOCATION-BLIND: no body of the rebuilder reads a value of a location type; Display tables are read in match form and in literal-table form."
     " ROUND 7: R7-NODES-AS-THEY-ARE: the receiver of every rebuild() call is a child of the node at hand, never the result of a function of the crate that picks another node."
     " ROUND 9: R3-LITERAL-SPELLING 'StringLiteral text untouched': the calls between ascii::escape_default and the quotes are the reviewed text-preserving ones (no rewriting of the escaped text)."
-    " ROUND 10: R3-LITERAL-SPELLING templates: Binary `{} {} {}`, Unary `{}{}`, Parenthesized `({})`, TypeCast, LengthOfArray, SizeOf each have one template on every path (parentheses exist in the tree as nodes).")
+    " ROUND 10: R3-LITERAL-SPELLING templates: Binary `{} {} {}`, Unary `{}{}`, Parenthesized `({})`, TypeCast, LengthOfArray, SizeOf each have one template on every path (parentheses exist in the tree as nodes)."
+    " ROUND 11: R3-LITERAL-SPELLING 'text comes from its template': every text the Binary, Unary, Parenthesized, TypeCast, LengthOfArray and SizeOf arms return is produced by the arm's format template (a child's text is never passed through).")
 
 RB = "alpha::rebuilder::"
 ALLOWED_IGNORED = {"location", "location_of_declaration", "location_of_type", "location_of_return_type", "location_of_op",
